@@ -234,3 +234,34 @@ def branchPrefixOk (h : Hist) (branch : String) (p : String) (r : Id) : Bool :=
       (ids h).all (fun y => !(y.startsWith p) || y.length ≤ 3 || !(downLineage h br y) || y == r)))
 
 end Spec.Rev
+
+namespace Spec.Rev
+open Model.Rev
+
+/-- where a relative upgrade target without an explicit revision (`+N`, `label@+N`) starts
+counting: the current rows (`none` = base when there is none); with a branch label the rows on
+that branch and, when no row is on it, the tips of (applied revisions ∩ the branch's lineage).
+`none` when the label names no branch. -/
+def relUpStarts (h : Hist) (rows : List Id) (label : Option String) : Option (List (Option Id)) :=
+  match label with
+  | none => some (if rows.isEmpty then [none] else rows.map some)
+  | some l =>
+    match branchRev h l with
+    | none => none
+    | some br =>
+      let onBranch := rows.filter (downLineage h br)
+      if !onBranch.isEmpty then some (onBranch.map some)
+      else
+        let act := (ancSet h rows).filter (downLineage h br)
+        let tips := act.filter (fun x => act.all (fun y => !(decide (x ∈ parents h y))))
+        some (if tips.isEmpty then [none] else tips.map some)
+
+/-- `+N` / `label@+N` may resolve to `r` only when there is exactly one place to start from and
+`r` lies exactly `n` down-revision links above it -/
+def relUpOk (h : Hist) (rows : List Id) (label : Option String) (n : Nat) (r : Id) : Option Bool :=
+  match relUpStarts h rows label with
+  | none => none
+  | some [s] => some (stepsDown h n r s)
+  | some _ => some false
+
+end Spec.Rev
